@@ -186,7 +186,14 @@ namespace optree {
     const std::vector<Node>& traversal,
     const ssize_t& pos,
     const std::vector<Node>& other_traversal,
-    const ssize_t& other_pos) {
+    const ssize_t& other_pos,
+    const ssize_t& depth) {
+    if (depth > MAX_RECURSION_DEPTH) [[unlikely]] {
+        // The treespec can be deeper than any pytree (e.g., built by `compose()`). Do not overflow the C stack.
+        PyErr_SetString(PyExc_RecursionError,
+                        "Maximum recursion depth exceeded during traversing the treespec.");
+        throw py::error_already_set();
+    }
     const Node& root = traversal.at(pos);
     const Node& other_root = other_traversal.at(other_pos);
     EXPECT_GE(pos + 1,
@@ -312,7 +319,12 @@ namespace optree {
                 other_cur = other_curs[py::cast<ssize_t>(DictGetItem(dict, key))];
                 const auto [num_nodes, other_num_nodes, new_num_nodes, new_num_leaves] =
                     // NOLINTNEXTLINE[misc-no-recursion]
-                    BroadcastToCommonSuffixImpl(nodes, traversal, cur, other_traversal, other_cur);
+                    BroadcastToCommonSuffixImpl(nodes,
+                                                traversal,
+                                                cur,
+                                                other_traversal,
+                                                other_cur,
+                                                depth + 1);
                 cur -= num_nodes;
                 nodes[start_num_nodes].num_nodes += new_num_nodes;
                 nodes[start_num_nodes].num_leaves += new_num_leaves;
@@ -390,7 +402,12 @@ namespace optree {
     for (ssize_t i = root.arity - 1; i >= 0; --i) {
         const auto [num_nodes, other_num_nodes, new_num_nodes, new_num_leaves] =
             // NOLINTNEXTLINE[misc-no-recursion]
-            BroadcastToCommonSuffixImpl(nodes, traversal, cur, other_traversal, other_cur);
+            BroadcastToCommonSuffixImpl(nodes,
+                                                traversal,
+                                                cur,
+                                                other_traversal,
+                                                other_cur,
+                                                depth + 1);
         cur -= num_nodes;
         other_cur -= other_num_nodes;
         nodes[start_num_nodes].num_nodes += new_num_nodes;
@@ -633,6 +650,12 @@ ssize_t PyTreeSpec::PathsImpl(Span& paths,  // NOLINT[misc-no-recursion]
                               Stack& stack,
                               const ssize_t& pos,
                               const ssize_t& depth) const {
+    if (depth > MAX_RECURSION_DEPTH) [[unlikely]] {
+        // The treespec can be deeper than any pytree (e.g., built by `compose()`). Do not overflow the C stack.
+        PyErr_SetString(PyExc_RecursionError,
+                        "Maximum recursion depth exceeded during traversing the treespec.");
+        throw py::error_already_set();
+    }
     const Node& root = m_traversal.at(pos);
     EXPECT_GE(pos + 1, root.num_nodes, "PyTreeSpec::Paths() walked off start of array.");
 
@@ -723,6 +746,12 @@ ssize_t PyTreeSpec::AccessorsImpl(Span& accessors,  // NOLINT[misc-no-recursion]
                                   Stack& stack,
                                   const ssize_t& pos,
                                   const ssize_t& depth) const {
+    if (depth > MAX_RECURSION_DEPTH) [[unlikely]] {
+        // The treespec can be deeper than any pytree (e.g., built by `compose()`). Do not overflow the C stack.
+        PyErr_SetString(PyExc_RecursionError,
+                        "Maximum recursion depth exceeded during traversing the treespec.");
+        throw py::error_already_set();
+    }
     PYBIND11_CONSTINIT static py::gil_safe_call_once_and_store<py::object> storage;
     const py::object& PyTreeAccessor = storage
                                            .call_once_and_store_result([]() -> py::object {
